@@ -107,25 +107,26 @@ Section Proofs.
     Qed.
 
     (* integer / long / boolean <-> string: under the laws of the host's decimal formatting and parsing *)
-    Hypothesis parse_format : forall z, string_to_int (int_to_string z) = Some z.
+    Hypothesis parse_format : forall z, in64 z = true -> string_to_int (int_to_string z) = Some z.
     Hypothesis bool_strings : (string_to_bool [116; 114; 117; 101] = true) /\ (string_to_bool [102; 97; 108; 115; 101] = false).
-    Theorem int_string_roundtrip z :
+    Theorem int_string_roundtrip z : in64 z = true ->        (* variants hold int64 values *)
       step2 (VInt H z) TString TInteger = Ok (VInt H z) /\ step2 (VLong H z) TString TLong = Ok (VLong H z).
     Proof.
-      unfold step2. cbn [convert_unsafe vtype_eqb type_of orb bind to_string]. unfold parse_int. rewrite parse_format. split; reflexivity.
+      intros Hz. unfold step2. cbn [convert_unsafe vtype_eqb type_of orb bind to_string]. unfold parse_int. rewrite (parse_format z Hz). split; reflexivity.
     Qed.
     Theorem bool_string_roundtrip b : step2 (VBool H b) TString TBoolean = Ok (VBool H b).
     Proof. destruct bool_strings as [Ht Hf]. destruct b; unfold step2; cbn [convert_unsafe vtype_eqb type_of orb bind to_string]; [rewrite Ht|rewrite Hf]; reflexivity. Qed.
 
     (* through floating point: under the IEEE laws of the host (exact representation of small integers, exact widening) *)
     Hypothesis trunc_of_int64 : forall z, - 2 ^ 53 <= z <= 2 ^ 53 -> trunc64 H (of_int64 H z) = z.
-    Hypothesis narrow_widen : forall f, narrow H (widen H f) = f.
+    Variable ok32 : F32 H -> Prop.           (* the float32 values the host can produce (for the SpecFloat instance: the images of bit patterns) *)
+    Hypothesis narrow_widen : forall f, ok32 f -> narrow H (widen H f) = f.
     Hypothesis bool_floats : (eq32 H (one32 H) (zero32 H) = false) /\ (eq32 H (zero32 H) (zero32 H) = true) /\ (eq64 H (one64 H) (zero64 H) = false) /\ (eq64 H (zero64 H) (zero64 H) = true).
     Theorem int_double_roundtrip z : - 2 ^ 53 <= z <= 2 ^ 53 ->
       step2 (VInt H z) TDouble TInteger = Ok (VInt H z) /\ step2 (VLong H z) TDouble TLong = Ok (VLong H z).
     Proof. intros Hz. unfold step2. cbn [convert_unsafe vtype_eqb type_of orb bind]. rewrite (trunc_of_int64 z Hz). split; reflexivity. Qed.
-    Theorem float_double_roundtrip f : step2 (VFloat H f) TDouble TFloat = Ok (VFloat H f).
-    Proof. unfold step2. cbn [convert_unsafe vtype_eqb type_of orb bind]. rewrite narrow_widen. reflexivity. Qed.
+    Theorem float_double_roundtrip f : ok32 f -> step2 (VFloat H f) TDouble TFloat = Ok (VFloat H f).
+    Proof. intros Hf. unfold step2. cbn [convert_unsafe vtype_eqb type_of orb bind]. rewrite (narrow_widen f Hf). reflexivity. Qed.
     Theorem bool_float_roundtrip b : step2 (VBool H b) TFloat TBoolean = Ok (VBool H b) /\ step2 (VBool H b) TDouble TBoolean = Ok (VBool H b).
     Proof.
       destruct bool_floats as (H1 & H2 & H3 & H4).
